@@ -97,6 +97,11 @@ const OPS = {
   ifaceElemOverride: { arity: 1, decl: (n, s) => `interface ${n}b { k: ${s[0]} | symbol; other: symbol }\ninterface ${n} extends ${n}b { k: ${s[0]} }`, src: (s, n) => `${n}['k']`, ctors: (c) => c[0], samples: (x) => x[0] },
   ifaceMethodElem: { arity: 1, decl: (n, s) => `interface ${n} { m(): void; get k(): ${s[0]} }`, src: (s, n) => `${n}['m' | 'k']`, ctors: (c) => ['Function'].concat(c[0]), samples: (x) => [() => {}].concat(x[0]) },
   arrayGenericElem: { arity: 1, src: (s) => `Array<${s[0]}>[number]`, ctors: (c) => c[0], samples: (x) => x[0] },
+  // a trailing rest element holds values of its element type: under [number], and under a literal index at or past its position
+  tupleRestN: { arity: 2, decl: (n, s) => `type ${n} = [${s[0]}, ...(${s[1]})[]];`, src: (s, n) => `${n}[number]`, ctors: (c) => c[0].concat(c[1]), samples: (x) => x[0].concat(x[1]) },
+  tupleRestGenericN: { arity: 2, decl: (n, s) => `type ${n} = [${s[0]}, ...Array<${s[1]}>];`, src: (s, n) => `${n}[number]`, ctors: (c) => c[0].concat(c[1]), samples: (x) => x[0].concat(x[1]) },
+  tupleRestAt: { arity: 2, decl: (n, s) => `type ${n} = [${s[0]}, ...(${s[1]})[]];`, src: (s, n) => `${n}[1]`, ctors: (c) => c[1], samples: (x) => x[1] },
+  tupleRestPast: { arity: 2, decl: (n, s) => `type ${n} = [${s[0]}, ...(${s[1]})[]];`, src: (s, n) => `${n}[3]`, ctors: (c) => c[1], samples: (x) => x[1] },
   tupleOptElem: { arity: 2, decl: (n, s) => `type ${n} = [${s[0]}, (${s[1]})?];`, src: (s, n) => `${n}[number]`, ctors: (c) => c[0].concat(c[1]), samples: (x) => x[0].concat(x[1]) },
   // an indexed access whose object is itself an indexed access; the two indices differ and the member under the other index is a symbol
   chainTuple01: { arity: 2, decl: (n, s) => `type ${n} = [[symbol, ${s[0]}], [${s[1]}, symbol]];`, src: (s, n) => `${n}[0][1]`, ctors: (c) => c[0], samples: (x) => x[0] },
